@@ -9,7 +9,8 @@
            owned annotation sets are neither seeds nor atomic, bound-attribute names are immutable
            values, attribute names are immutable values); evaluated on every dumped case *)
 From Coq Require Import ZArith List Bool.
-From DV Require Import Model.PyPrims Model.C12Model Proofs.C12Proofs Proofs.C12IsoTop Proofs.C12Examples.
+From DV Require Import Model.PyPrims Model.C12Model Model.C12Spec2 Proofs.C12Proofs Proofs.C12IsoTop Proofs.C12Examples
+  Proofs.C12AnnTop Proofs.C12FunTop Proofs.C12ImageTop Proofs.C12Examples2 Model.C12Shallow Proofs.C12ShallowTop.
 Import ListNotations.
 Open Scope Z_scope.
 
@@ -166,3 +167,219 @@ Proof.
               (ex_intro _ (cell_heap (P 60)) (ex_intro _ 0 (conj (cell_heap_wf (P 60) (or_intror eq_refl)) cell_heap_copy_fails)))).
 Qed.
 Print Assumptions deepcopy_total_refuted.
+
+(* ==== second wave ====================================================================================
+   Additional executable hypotheses (Model/C12Spec2.v), evaluated on every dumped case:
+   wf_heap3      members of an owned annotation set are pairwise distinct; the `_taxa` list of a namespace
+                 is referred to by that namespace only
+   root_seeds_ok the root is not a `_taxa` list; no memo seed is a tuple, a `_taxa` list, an owned
+                 annotation set or one of its containers
+   wf_heap3s     (image theorems only) every AnnotationSet object is the `_annotations` of an annotable
+                 object; an owned AnnotationSet has the attributes _item_list, _item_set, target only, its
+                 target is its owner, its _item_set holds members of its _item_list.  Fails on matrices
+                 with per-cell annotation sets and on copy-constructed sources (hidden twin): counted by
+                 the harness, those heaps are covered by the other theorems only. *)
+
+(* The EXCEPT clause of deepcopy_content_bisimulation_partial, closed: for every recorded pair (a, b) of
+   annotable objects (Annotable / Taxon / TaxonNamespace kinds), the copy b has no `_annotations` iff a's
+   set has no object member, and otherwise b._annotations is a NEW AnnotationSet with target b whose
+   _item_list lists, at keys 0, 1, 2, ... and in the order of a's _item_list, exactly the recorded
+   copies of the members of a's set (AnnState / ibody), and whose _item_set holds the same copies. *)
+Theorem deepcopy_annotation_sets_rebuilt : forall nf h seeds root fuel s' y,
+  wf_heap h seeds = true -> wf_heap2 h = true -> wf_heap3 h = true -> memz root (owned_list h) = false ->
+  0 <= root < hlen h -> (length h < fuel)%nat ->
+  run_seeded nf fuel h seeds root = Ok (s', R y) ->
+  forall a b oa, In (a, b) (sc s') -> hget h a = Some oa -> is_annk (okind oa) = true ->
+    exists done, AnnState s' b done
+      /\ map fst done = refs_of (ann_items h oa)
+      /\ (forall p, In p done -> In p (sc s')).
+Proof. exact deepcopy_annotation_sets_l. Qed.
+Print Assumptions deepcopy_annotation_sets_rebuilt.
+
+(* The recorded correspondence is single-valued on the source side (with deepcopy_content_bisimulation's
+   injectivity: single-valued both ways), EXCEPT on sources of kind tuple: the (owner, name) pair of an
+   attribute-bound annotation is recorded once for the generic copy of the annotation and once for the
+   re-targeted pair (copy, name) (tuples are immutable values; the dumper gives them no identity).
+   No recorded source is an owned annotation set or a memo seed; every fresh object has distinct keys. *)
+Theorem deepcopy_single_valued : forall nf h seeds root fuel s' y,
+  wf_heap h seeds = true -> wf_heap2 h = true -> wf_heap3 h = true -> root_seeds_ok h seeds root = true ->
+  memz root (owned_list h) = false -> 0 <= root < hlen h -> (length h < fuel)%nat ->
+  run_seeded nf fuel h seeds root = Ok (s', R y) ->
+  (forall a b b', In (a, b) (sc s') -> In (a, b') (sc s') -> b = b' \/ kind_at h a = Some KTuple)
+  /\ (forall a b, In (a, b) (sc s') -> ~ In a (owned_list h) /\ ~ In a seeds)
+  /\ (forall o ob, hlen h <= o -> hget (sh s') o = Some ob -> NoDup (map fst (obody ob))).
+Proof. exact deepcopy_single_valued_l. Qed.
+Print Assumptions deepcopy_single_valued.
+
+(* The correspondence is ONTO the copy's reachable set and TOTAL on the source's:
+     - every object the copy reaches is an old object (shared: deepcopy_extends_and_fresh says which), the
+       recorded copy of an object the source root reaches, or one of the three rebuilt objects
+       (AnnotationSet, _item_list, _item_set: copy_cont) of such a copy - whose content
+       deepcopy_annotation_sets_rebuilt gives;
+     - every object the source root reaches has a recorded copy that the copy reaches, or is reached by the
+       copy as the very same object (shared), or is the owned AnnotationSet / _item_list / _item_set
+       (src_cont) of an annotable object whose recorded copy the copy reaches.
+   With deepcopy_extends_and_fresh, deepcopy_content_bisimulation_partial, deepcopy_annotation_sets_rebuilt
+   and deepcopy_single_valued this is deepcopy_iso_disjoint; what stays short of it: the tuple exception of
+   deepcopy_single_valued, and the hypothesis wf_heap3s. *)
+Theorem deepcopy_image_onto_and_total : forall nf h seeds root fuel s' y,
+  wf_heap h seeds = true -> wf_heap2 h = true -> wf_heap3 h = true -> wf_heap3s h = true ->
+  root_seeds_ok h seeds root = true -> memz root (owned_list h) = false ->
+  0 <= root < hlen h -> (length h < fuel)%nat ->
+  run_seeded nf fuel h seeds root = Ok (s', R y) ->
+  (forall o, reach (sh s') y o ->
+     o < hlen h \/ (exists a, In (a, o) (sc s') /\ reach h root a) \/ copy_cont h s' root o)
+  /\ (forall a, reach h root a ->
+        0 <= a < hlen h /\
+        ((exists b, In (a, b) (sc s') /\ reach (sh s') y b) \/ reach (sh s') y a \/ src_cont h s' y a)).
+Proof. exact deepcopy_image_l. Qed.
+Print Assumptions deepcopy_image_onto_and_total.
+
+(* Converse of scoped_shares_exactly_namespace_partial ("exactly"): every seed - the namespace, each of its
+   taxa - that the source reaches, and everything below it, is reached by the copy as the very same
+   objects. *)
+Theorem scoped_shares_every_reachable_seed : forall nf h root ns fuel s' y,
+  wf_heap h (ns_seeds h ns) = true -> wf_heap2 h = true -> wf_heap3 h = true -> wf_heap3s h = true ->
+  root_seeds_ok h (ns_seeds h ns) root = true -> memz root (owned_list h) = false ->
+  0 <= root < hlen h -> (length h < fuel)%nat ->
+  run nf fuel h root (RScoped ns) = Ok (s', R y) ->
+  forall b o, In b (ns_seeds h ns) -> reach h root b -> reach h b o ->
+    reach (sh s') y o /\ reach (sh s') root o.
+Proof. exact scoped_shares_every_seed_l. Qed.
+Print Assumptions scoped_shares_every_reachable_seed.
+
+(* the additional hypotheses hold on the example heap of hypotheses_satisfiable *)
+Theorem hypotheses3_satisfiable :
+  wf_heap3 ex_heap = true /\ wf_heap3s ex_heap = true
+  /\ root_seeds_ok ex_heap [] 0 = true /\ root_seeds_ok ex_heap (ns_seeds ex_heap 1) 0 = true.
+Proof. exact ex_wf3. Qed.
+Print Assumptions hypotheses3_satisfiable.
+
+(* ==== second wave: the shallow routes (Model/C12Shallow.v) =============================================
+   copy.copy(x) / x.clone(0) of a TreeList and of a CharacterMatrix (shallow_copy with the class's template:
+   treelist_template, matrix_template, cont_matrix_template), TaxonNamespace(ns) / copy.copy(ns) (ns_copy);
+   Tree.__copy__ is the taxon-namespace-scoped copy (route RScoped: the theorems above).  extract_tree and
+   StandardCharacterMatrix (its constructor installs a brand-new state alphabet) are not modelled.
+   The hypotheses are evaluated, and the model compared with the implementation, on every dumped shallow
+   case (scase_ok). *)
+
+(* The documented depth of copy.copy(TreeList) / copy.copy(CharacterMatrix): the result is ONE new object y;
+   the source heap is untouched; each attribute of the class's template is
+       FSame  - the very same value as the source's (label, taxon_namespace, ...),
+       FCopy  - a NEW container of the same class with the same entries, i.e. the same member objects
+                (`_trees`, `_taxon_sequence_map`, `state_alphabets`),
+       FEmpty - a NEW EMPTY container (`comments`, `character_types`, `character_subsets`: see the _refuted
+                theorems below);
+   and y._annotations is a new AnnotationSet listing, in order, deep copies of the source's annotations
+   (AnnState; the recorded pairs c2, other than (root, y), are related exactly as in
+   deepcopy_content_bisimulation_partial; references to the source object inside annotation values become
+   references to y). *)
+Theorem shallow_copy_documented_depth : forall nf fuel h root tmpl ob s' y,
+  hget h root = Some ob -> wf_heap h (shallow_shares h (obody ob) tmpl) = true -> wf_heap2 h = true -> wf_heap3 h = true ->
+  template_ok tmpl = true -> is_annk (okind ob) = true -> (length h < fuel)%nat ->
+  shallow_copy nf fuel h root tmpl = Ok (s', R y) ->
+  y = hlen h /\ (forall o, o < hlen h -> hget (sh s') o = hget h o)
+  /\ kind_at (sh s') y = Some (okind ob)
+  /\ Forall (FieldOK h s' y (obody ob) (hlen h + 1)) tmpl
+  /\ exists c2 done,
+       (forall p, In p c2 -> In p (sc s')) /\ In (root, y) c2
+       /\ AnnState s' y done /\ map fst done = refs_of (ann_items h ob) /\ (forall p, In p done -> In p c2)
+       /\ (forall a b, In (a, b) c2 -> b <> y ->
+             0 <= a < hlen h /\ hlen h < b < hlen (sh s') /\
+             exists oa ob', hget h a = Some oa /\ hget (sh s') b = Some ob' /\ ocls oa = ocls ob' /\ okind oa = okind ob'
+               /\ (forall k' v', In (k', v') (obody ob') ->
+                     rebuilt (okind oa) k' \/ exists k v, In (k, v) (obody oa) /\ vrel (hlen h) c2 k k' /\ vrel (hlen h) c2 v v')
+               /\ (forall k v, In (k, v) (obody oa) ->
+                     not_carried (okind oa) k \/ exists k' v', In (k', v') (obody ob') /\ vrel (hlen h) c2 k k' /\ vrel (hlen h) c2 v v')).
+Proof. exact shallow_copy_depth_l. Qed.
+Print Assumptions shallow_copy_documented_depth.
+
+(* What a shallow copy shares with its source, exactly: everything the copy reaches is new, or reachable
+   from a documented share (shallow_shares: what the FSame attributes refer to - the namespace - and the
+   members of the FCopy containers - the trees, the taxa and sequences) or from an atomic object; and every
+   documented share is reached by both. *)
+Theorem shallow_copy_shares_exactly : forall nf fuel h root tmpl ob s' y,
+  hget h root = Some ob -> wf_heap h (shallow_shares h (obody ob) tmpl) = true -> wf_heap2 h = true -> wf_heap3 h = true ->
+  template_ok tmpl = true -> is_annk (okind ob) = true -> (length h < fuel)%nat ->
+  shallow_copy nf fuel h root tmpl = Ok (s', R y) ->
+  (forall o, reach (sh s') y o ->
+     hlen h <= o < hlen (sh s') \/
+     exists b, (In b (shallow_shares h (obody ob) tmpl) \/ is_atomic h b = true) /\ reach h b o)
+  /\ (forall b, In b (shallow_shares h (obody ob) tmpl) -> reach (sh s') y b /\ reach h root b).
+Proof. exact shallow_copy_shares_l. Qed.
+Print Assumptions shallow_copy_shares_exactly.
+
+(* Frame for the shallow route: (1) later writes to the copy's own objects (numbered from hlen h) and
+   allocations leave every observation of the source unchanged; (2) later writes to source objects that no
+   documented share or atomic object reaches leave every observation of the copy unchanged; (3) a write to a
+   shared object (the namespace, a member tree, a taxon, a sequence) is visible from both: both still reach
+   the object and find the new body there. *)
+Theorem shallow_copy_frame : forall nf fuel h root tmpl ob s' y,
+  hget h root = Some ob -> wf_heap h (shallow_shares h (obody ob) tmpl) = true -> wf_heap2 h = true -> wf_heap3 h = true ->
+  template_ok tmpl = true -> is_annk (okind ob) = true -> (length h < fuel)%nat ->
+  shallow_copy nf fuel h root tmpl = Ok (s', R y) ->
+  (forall news ws, (forall w, In w ws -> hlen h <= fst w) ->
+     (forall o, reach h root o <-> reach (write_all (sh s' ++ news) ws) root o)
+     /\ (forall o, reach h root o -> hget (write_all (sh s' ++ news) ws) o = hget h o))
+  /\ (forall news ws,
+        (forall w, In w ws -> fst w < hlen h /\
+            ~ exists b, (In b (shallow_shares h (obody ob) tmpl) \/ is_atomic h b = true) /\ reach h b (fst w)) ->
+        (forall o, reach (sh s') y o <-> reach (write_all (sh s' ++ news) ws) y o)
+        /\ (forall o, reach (sh s') y o -> hget (write_all (sh s' ++ news) ws) o = hget (sh s') o))
+  /\ (forall b nb, In b (shallow_shares h (obody ob) tmpl) -> b <> root -> ~ In b (shallow_conts (obody ob) tmpl) ->
+        hget (write_all (sh s') [(b, nb)]) b = Some nb
+        /\ reach (write_all (sh s') [(b, nb)]) y b /\ reach (write_all (sh s') [(b, nb)]) root b).
+Proof. exact shallow_copy_frame_l. Qed.
+Print Assumptions shallow_copy_frame.
+
+(* TaxonNamespace(ns) / copy.copy(ns) / ns.clone(0) is the deep copy of ns with every taxon pre-seeded to
+   itself (ns_copy = run_seeded with seeds ns_taxa: every theorem above about run_seeded applies, in
+   particular the frame theorems).  Its documented depth: a new namespace; what it shares with ns is exactly
+   what the taxa (and atomic objects) reach, and every taxon of ns is reached by the copy as the very same
+   object. *)
+Theorem ns_copy_shares_exactly_taxa : forall nf h ns fuel s' y,
+  wf_heap h (ns_taxa h ns) = true -> wf_heap2 h = true -> wf_heap3 h = true -> wf_heap3s h = true ->
+  root_seeds_ok h (ns_taxa h ns) ns = true -> memz ns (owned_list h) = false ->
+  0 <= ns < hlen h -> (length h < fuel)%nat ->
+  ns_copy nf fuel h ns = Ok (s', R y) ->
+  (forall o, o < hlen h -> hget (sh s') o = hget h o)
+  /\ (forall o, reach (sh s') y o ->
+        hlen h <= o < hlen (sh s') \/ exists b, (In b (ns_taxa h ns) \/ is_atomic h b = true) /\ reach h b o)
+  /\ (forall b o, In b (ns_taxa h ns) -> reach h ns b -> reach h b o -> reach (sh s') y o /\ reach (sh s') ns o).
+Proof. exact ns_copy_shares_l. Qed.
+Print Assumptions ns_copy_shares_exactly_taxa.
+
+(* Not vacuous: a TreeList-shaped heap (sh_heap) satisfying the hypotheses, on which the shallow copy runs. *)
+Theorem shallow_hypotheses_satisfiable :
+  (wf_heap sh_heap (root_shares sh_heap 0 treelist_template) = true /\ wf_heap2 sh_heap = true /\ wf_heap3 sh_heap = true
+   /\ memz 0 (owned_list sh_heap) = false /\ template_ok treelist_template = true
+   /\ root_shares sh_heap 0 treelist_template = [1; 6])
+  /\ (exists s', shallow_copy false 12 sh_heap 0 treelist_template = Ok (s', R 11) /\ hlen (sh s') = 20).
+Proof. exact (conj sh_heap_hyps sh_heap_runs). Qed.
+Print Assumptions shallow_hypotheses_satisfiable.
+
+(* "All member objects are references" (Annotable.__copy__) is REFUTED for the container attributes that the
+   constructor creates empty: the source has a comment, the copy's `comments` is a new EMPTY list (the same
+   holds for character_types and character_subsets of a matrix: known finding
+   shallow-matrix-copy-drops-character-subsets-and-types; `comments` of TreeList and CharacterMatrix:
+   proposed finding shallow-copy-drops-comments). *)
+Theorem shallow_copy_keeps_container_content_refuted : exists s' c c',
+  shallow_copy false 12 sh_heap 0 treelist_template = Ok (s', R 11)
+  /\ bget (body_of (init_st false sh_heap []) 0) NM_COMMENTS = Some (R c) /\ body_of (init_st false sh_heap []) c <> []
+  /\ bget (body_of s' 11) NM_COMMENTS = Some (R c') /\ body_of s' c' = [].
+Proof. exact sh_heap_drops_comments. Qed.
+Print Assumptions shallow_copy_keeps_container_content_refuted.
+
+(* "Attribute-bound annotations of the copy can be read" is REFUTED (known finding
+   shallow-copy-bound-annotation-dangling): the copy's annotation a2 is bound to (copy, name) - value tuple
+   (R 11, name) - while the copy has no attribute `name` (the source's extra attribute is not in the class's
+   template, so the default-constructed copy lacks it). *)
+Theorem shallow_copy_bound_annotation_resolves_refuted : exists s' a2 t name,
+  shallow_copy false 12 sh_heap 0 treelist_template = Ok (s', R 11)
+  /\ AnnState s' 11 [(9, a2)]
+  /\ bget (body_of s' a2) NM_ISATTR = Some PTrue /\ bget (body_of s' a2) NM_VALUE = Some (R t)
+  /\ body_of s' t = [(pidx 0, R 11); (pidx 1, name)]
+  /\ bget (body_of s' 11) name = None
+  /\ bget (body_of (init_st false sh_heap []) 0) name = Some (P 1005).
+Proof. exact sh_heap_dangling. Qed.
+Print Assumptions shallow_copy_bound_annotation_resolves_refuted.
